@@ -114,6 +114,9 @@ func newRateTotal(c *Combo, zero num.Amount) *RateTotal {
 // Category provides the category total for the matching code.
 func (t *Total) Category(code cbc.Code) *CategoryTotal {
 	for _, ct := range t.Categories {
+		if ct == nil {
+			continue
+		}
 		if ct.Code == code {
 			return ct
 		}
@@ -148,6 +151,9 @@ func (rt *RateTotal) matches(c *Combo) bool {
 func (t *Total) rateTotalFor(c *Combo, zero num.Amount) *RateTotal {
 	var catTotal *CategoryTotal
 	for _, ct := range t.Categories {
+		if ct == nil {
+			continue
+		}
 		if ct.Code == c.Category {
 			catTotal = ct
 			break
@@ -161,6 +167,9 @@ func (t *Total) rateTotalFor(c *Combo, zero num.Amount) *RateTotal {
 	// Prepare the Rate, match using percent value
 	var rateTotal *RateTotal
 	for _, rt := range catTotal.Rates {
+		if rt == nil {
+			continue
+		}
 		if rt.matches(c) {
 			rateTotal = rt
 			break
@@ -182,6 +191,9 @@ func (t *Total) Negate() *Total {
 	}
 	nt := t.Clone()
 	for _, ct := range nt.Categories {
+		if ct == nil {
+			continue
+		}
 		ct.Amount = ct.Amount.Negate()
 		ct.amount = ct.amount.Negate()
 		if ct.Surcharge != nil {
@@ -189,6 +201,9 @@ func (t *Total) Negate() *Total {
 			ct.Surcharge = &s
 		}
 		for _, rt := range ct.Rates {
+			if rt == nil {
+				continue
+			}
 			rt.Base = rt.Base.Negate()
 			rt.Amount = rt.Amount.Negate()
 			if rt.Surcharge != nil {
@@ -236,6 +251,9 @@ func (t *Total) Clone() *Total {
 	nt := new(Total)
 	nt.Categories = make([]*CategoryTotal, len(t.Categories))
 	for i, ct := range t.Categories {
+		if ct == nil {
+			continue
+		}
 		nt.Categories[i] = ct.clone()
 	}
 	nt.Sum = t.Sum
@@ -257,6 +275,9 @@ func (ct *CategoryTotal) clone() *CategoryTotal {
 	}
 	nct.Rates = make([]*RateTotal, len(ct.Rates))
 	for j, rt := range ct.Rates {
+		if rt == nil {
+			continue
+		}
 		nct.Rates[j] = new(RateTotal)
 		nct.Rates[j].Key = rt.Key
 		nct.Rates[j].Country = rt.Country
@@ -283,9 +304,15 @@ func (t *Total) Merge(t2 *Total) *Total {
 
 	// Now merge the second total
 	for _, ct := range t2.Categories {
+		if ct == nil {
+			continue
+		}
 		// Find the category in the nt total
 		var catTotal *CategoryTotal
 		for _, mct := range nt.Categories {
+			if mct == nil {
+				continue
+			}
 			if mct.Code == ct.Code {
 				catTotal = mct
 				break
@@ -307,9 +334,15 @@ func (t *Total) Merge(t2 *Total) *Total {
 			}
 			// Merge the rates
 			for _, rt := range ct.Rates {
+				if rt == nil {
+					continue
+				}
 				// Find the rate in the nt category
 				var rateTotal *RateTotal
 				for _, mrt := range catTotal.Rates {
+					if mrt == nil {
+						continue
+					}
 					// match against the values, not the key
 					if mrt.Matches(rt) {
 						rateTotal = mrt
@@ -365,6 +398,9 @@ func (t *Total) calculateFinalSum(zero num.Amount, rr cbc.Key) {
 	// Now go through each category to apply the percentage and calculate the final sums
 	t.Sum = zero
 	for _, ct := range t.Categories {
+		if ct == nil {
+			continue
+		}
 		t.calculateBaseCategoryTotal(ct, zero, rr)
 
 		t.Sum = matchRoundingPrecision(rr, t.Sum, ct.Amount)
@@ -386,6 +422,9 @@ func (t *Total) calculateBaseCategoryTotal(ct *CategoryTotal, zero num.Amount, r
 	ct.Amount = zero
 	ct.Surcharge = nil // rebuilt from the rates below
 	for _, rt := range ct.Rates {
+		if rt == nil {
+			continue
+		}
 		if rt.Percent == nil {
 			rt.Amount = zero
 			continue // exempt, nothing else to do
@@ -423,7 +462,13 @@ func matchRoundingPrecision(rr cbc.Key, a, b num.Amount) num.Amount {
 // still.
 func (t *Total) round(zero num.Amount) {
 	for _, ct := range t.Categories {
+		if ct == nil {
+			continue
+		}
 		for _, rt := range ct.Rates {
+			if rt == nil {
+				continue
+			}
 			rt.Amount = rt.Amount.Rescale(zero.Exp())
 			rt.Base = rt.Base.Rescale(zero.Exp())
 			if rt.Surcharge != nil {
